@@ -421,7 +421,50 @@ def gap_body(case):
         note_label('breakpoints-dropped')
 
 
+# ------------------------------------------------------------------ requiren (round 12)
+@st.composite
+def requiren_case(draw):
+    n = draw(st.integers(60, 240))
+    return dict(n=n, nzero=draw(st.integers(n // 8, n // 3)), seed=draw(st.integers(0, 10 ** 6)), requiren=draw(st.sampled_from([2, 1, 3, 4])),
+                bkspace=draw(st.sampled_from([5.0, 4.0, 8.0, 2.5])), nord=draw(st.sampled_from([4, 3, 2])), maxiter=draw(st.sampled_from([0, 0, 2])),
+                perm=list(draw(st.permutations(list(range(n))))))
+
+
+def requiren_body(case):
+    """iterfit(requiren=N) - the keyword combine1fiber uses: breakpoints are kept where at least N weighted points lie between them.  Which
+    breakpoints that leaves is the package's business; that the answer does not depend on the order of the input is the property."""
+    from pydl.pydlutils.bspline import iterfit
+    n = case['n']
+    k = np.arange(n, dtype='f8')
+    x = 100.0 * k / (n - 1)
+    u = np.modf(np.abs(np.sin(k * 12.9898 + case['seed']) * 43758.5453))[0]
+    y = 10.0 + np.sin(x / 15.0) + 0.02 * (u - 0.5)
+    iv = np.full(n, 2500.0)
+    iv[np.argsort(np.modf(np.abs(np.sin(k * 78.233 + case['seed'] + 1) * 24634.6345))[0])[:case['nzero']]] = 0.0
+    perm = np.array(case['perm'])
+    kw = dict(nord=case['nord'], bkspace=case['bkspace'], requiren=case['requiren'], maxiter=case['maxiter'], upper=5, lower=5)
+    s1, m1 = call(iterfit, x.copy(), y.copy(), invvar=iv.copy(), **kw)
+    s2, m2 = call(iterfit, x[perm].copy(), y[perm].copy(), invvar=iv[perm].copy(), **kw)
+    grid = np.linspace(0.0, 100.0, 301)
+    c1, g1 = call(s1.value, grid.copy())
+    c2, g2 = call(s2.value, grid.copy())
+    with judge('requiren-order'):
+        check(np.array_equal(np.asarray(s1.breakpoints), np.asarray(s2.breakpoints)) and np.array_equal(np.asarray(s1.mask), np.asarray(s2.mask)),
+              'requiren:breakpoints-kept-depend-on-input-order', lambda: dict(sorted_kept=int(np.sum(s1.mask)), permuted_kept=int(np.sum(s2.mask)), requiren=case['requiren']))
+        check(bool(np.all(np.abs(np.asarray(c1) - np.asarray(c2)) <= 1e-7 * 11.0)) and np.array_equal(np.asarray(g1), np.asarray(g2)), 'requiren:curve-depends-on-input-order',
+              lambda: dict(maxdev=float(np.abs(np.asarray(c1) - np.asarray(c2)).max())))
+        check(np.array_equal(np.asarray(m2), np.asarray(m1)[perm]), 'requiren:mask-not-in-caller-order')
+        check(not np.asarray(m1)[iv <= 0].any(), 'requiren:zero-weight-point-flagged-good')
+    if not np.all(s1.mask):
+        note_label('breakpoints-dropped-by-requiren')
+    if case['perm'] != sorted(case['perm']):
+        note_label('permuted')
+
+
 SUBCHECKS = [
+    SubCheck('requiren_order', requiren_body, strategy=requiren_case, classify=lambda c: ['requiren:%d' % c['requiren'], 'nord:%d' % c['nord'], 'maxiter:%d' % c['maxiter']],
+             nontrivial=lambda c, l: 'breakpoints-dropped-by-requiren' in l and 'permuted' in l, quick=600, thorough=20000, shards=(8, 16), floor=0.0,
+             doc='iterfit(requiren=N): breakpoints kept, curve and mask do not depend on the order of the input'),
     SubCheck('exact_ties', tie_body, strategy=tie_case, classify=lambda c: ['side:' + c['side'], 'U:%d' % c['U']],
              nontrivial=lambda c, l: 'residual-exactly-on-limit' in l, quick=800, thorough=20000, shards=(4, 16),
              doc='normalised residuals that are exactly on a rejection limit are not beyond it (exact arithmetic case: order 1, integer data)'),
